@@ -114,6 +114,10 @@ type ctlState struct {
 	running bool
 	view    *view
 	cl      *simClient
+	// a write of this reconcile was refused with a Conflict: the informer cache may have caught up by the time the
+	// controller looks again, so later reads of cached kinds in the same reconcile are served from the store (the
+	// freshest cache there can be). The unchanged controllers never read after a conflict; a retry-on-conflict does.
+	conflicted bool
 }
 
 type view struct {
@@ -161,6 +165,7 @@ type Sim struct {
 	Panics      []string
 	Conflicts   int
 	Exists      int
+	FreshReads  int // reads of cached kinds served from the store after a conflict in the same reconcile
 
 	lastExpCT   string
 	ExpCTChange bool // completion time of the experiment changed in the last action
@@ -370,6 +375,13 @@ func (c *simClient) Get(cx context.Context, key client.ObjectKey, obj client.Obj
 	if v == nil {
 		return c.WithWatch.Get(cx, key, obj, opts...)
 	}
+	if c.st.conflicted {
+		switch obj.(type) {
+		case *experimentsv1beta1.Experiment, *suggestionsv1beta1.Suggestion, *trialsv1beta1.Trial:
+			c.sim.FreshReads++
+			return c.WithWatch.Get(cx, key, obj, opts...)
+		}
+	}
 	switch o := obj.(type) {
 	case *experimentsv1beta1.Experiment:
 		if v.exp == nil || v.exp.Name != key.Name || v.exp.Namespace != key.Namespace {
@@ -432,6 +444,7 @@ func (c *simClient) note(err error) error {
 	if err != nil {
 		if apierrors.IsConflict(err) {
 			c.sim.Conflicts++
+			c.st.conflicted = true
 		}
 		if apierrors.IsAlreadyExists(err) {
 			c.sim.Exists++
@@ -685,6 +698,7 @@ func (s *Sim) begin(a Action) {
 		return
 	}
 	st.view = s.takeView(a.C)
+	st.conflicted = false
 	st.running = true
 	if a.C == "sug" {
 		s.curResp = a.Resp
